@@ -615,6 +615,20 @@ def gen_sweep(ck, rng, tier, sd, lines):
             out.append(Inp("sort-region", "region#%d clocks=%s before last event" % (k, clocks), n,
                            with_obs(s, d[:last["off"]] + reg + d[last["off"]:])))
             out.append(Inp("sort-region", "region#%d clocks=%s at end" % (k, clocks), n, with_obs(s, d + reg)))
+        # traces with several streams: a region at the very start of EACH stream whose events predate
+        # everything before them (ovnisort keeps one look-back ring for the whole trace)
+        if len(s) > 1:
+            files = seed_files(s)
+            for kk in range(len(s)):
+                dk = files[kk][2]
+                evk = obs.decode(dk)
+                if not evk:
+                    continue
+                o0 = evk[0]["off"]
+                for clocks in ([2, 1], [1, 0]):
+                    reg = E("OU[", 3) + b"".join(E("OB.", c) for c in clocks) + E("OU]", 4)
+                    out.append(Inp("sort-region", "stream#%d region at its start clocks=%s" % (kk, clocks), n,
+                                   with_obs(s, dk[:o0] + reg + dk[o0:], kk)))
         out.append(Inp("sort-region", "region left open", n, with_obs(s, d + E("OU[", 1600) + E("OB.", 5))))
         out.append(Inp("sort-region", "region with a jumbo of wrapped size", n,
                        with_obs(s, d + E("OU[", 1600) + header("OB.", 3, 3, True) + struct.pack("<I", 0xFFFFFFF0)
